@@ -210,11 +210,11 @@ def plan(tier, seed, args):
     # screened SDMX evaluation (caller's cutoff) on generally contracted shells, points ordered
     # by radius so that whole blocks are far from an atom: the skip path of the radial loop
     if args.cases is None:
-        for i in range(8 if tier == "quick" else 120):
+        for i in range(12 if tier == "quick" else 160):
             for variant in ("sim", "simtrace") if i % 2 == 0 else ("sim",):
                 r = Rng(derive(seed, PROP, "sdmx", "screened", variant, i))
                 wp = W.draw_sdmx_params(r)
-                wp.update({"basis": r.choice(["ano@3s2p", "ano@2s2p", "ano@2s1p", "cc-pvdz"]), "cutoff": r.choice([1e-8, 1e-5, 1e-3]), "spread": r.choice([4.0, 8.0]), "order": "radial", "ngrids": r.randint(120, 520)})
+                wp.update({"basis": r.choice(["ano@3s2p", "ano@2s2p", "ano@2s1p", "cc-pvdz", "sto-3g", "6-31g"]), "cutoff": r.choice([1e-8, 1e-5, 1e-3]), "spread": r.choice([4.0, 8.0, 16.0]), "order": r.choice(["radial", "radial_rev", "blockwise"]), "ngrids": r.randint(120, 520)})
                 cases.append({"workload": "sdmx", "wparams": wp, "scheds": [draw_sched(r, variant) for _ in range(6)], "group": variant})
     # team-size sweeps: routines that partition their work by hand from the team size give a
     # result that is a function of (problem size, team size) alone; every team size from 2 to
